@@ -158,7 +158,7 @@ class ExecutorPool:
         return {"n": self.n}
 
 
-SCHEDULES = ["vec", "vec-ro", "scalar", "reversed", "permuted", "threads", "fullapi", "executor", "int1", "int2"]
+SCHEDULES = ["vec", "vec-ro", "vec-list", "scalar", "scalar-0d", "scalar-np64", "scalar-ld", "reversed", "permuted", "threads", "fullapi", "executor", "int1", "int2"]
 
 
 def one(cfg, schedule, seed):
@@ -166,18 +166,22 @@ def one(cfg, schedule, seed):
     c = runs.full(dict(cfg, seed=seed))
     blobs = c["mode"] == "blobs"
     pool = None
-    if schedule in ("vec", "vec-ro"):
+    if schedule in ("vec", "vec-ro", "vec-list"):
         if blobs:
             return dict(skip="vectorised likelihood cannot return blobs (rejected by the configuration)")
         c["mode"] = "vec"
         c["pointwise"] = True
+        if schedule == "vec-list":
+            c["ret_type"] = "vec-list"
         if schedule == "vec-ro":
             # the vectorised likelihood owns its output memory: it returns a read-only view of one buffer that the next
             # call overwrites (compiled models, JAX arrays seen through numpy)
             c["ro_buffer"] = True
     else:
         c["mode"] = "blobs" if blobs else "scalar"
-        pool = {"scalar": None, "reversed": ReversedPool(), "permuted": PermutedPool(seed + 5), "threads": ThreadedPool(4, seed + 7), "fullapi": FullAPIPool(3, seed + 9), "executor": ExecutorPool(4, seed + 11),
+        if schedule.startswith("scalar-"):
+            c["ret_type"] = schedule.split("-")[1]      # the pointwise value as 0-d array / np.float64 / np.longdouble
+        pool = {"scalar": None, "scalar-0d": None, "scalar-np64": None, "scalar-ld": None, "reversed": ReversedPool(), "permuted": PermutedPool(seed + 5), "threads": ThreadedPool(4, seed + 7), "fullapi": FullAPIPool(3, seed + 9), "executor": ExecutorPool(4, seed + 11),
                 "int1": 1, "int2": 2}[schedule]
     c["pool"] = pool
     idblob.SHARED = mp.Value("q", 0)
@@ -226,7 +230,7 @@ def run():
     tasks = []
     for ci, cfg in enumerate(cfgs):
         for r in range(nseeds):
-            sch = SCHEDULES if (r == 0 or not ck.quick) else SCHEDULES[:8]
+            sch = SCHEDULES if (r == 0 or not ck.quick) else SCHEDULES[:12]
             tasks.append(("tvf.checks.c13:group", dict(cfg=cfg, seed=ck.subseed("s", ci, r) % 10 ** 6, schedules=sch), None))
     for i, st, val in farm.run(tasks, timeout=1200, jobs=8, progress="C13"):
         kw = tasks[i][1]
